@@ -954,6 +954,12 @@ func unguardedConsumerAt(prog *an.Prog, f *ssa.Function, phi ssa.Value, depth in
 // (`len(v) == 0`, `v == ""`, and their negations).
 func emptyEdges(l *an.Loop, v ssa.Value) []an.CtrlEdge {
 	var out []an.CtrlEdge
+	// the line as a string, or the bytes it was converted from: both are empty together
+	if len(sameLine(v)) > 1 {
+		for _, w := range sameLine(v)[1:] {
+			out = append(out, emptyEdges(l, w)...)
+		}
+	}
 	for b := range l.Blocks {
 		iff, ok := b.Instrs[len(b.Instrs)-1].(*ssa.If)
 		if !ok {
@@ -2838,4 +2844,18 @@ func callThroughWrapper(f, target *ssa.Function) ssa.Instruction {
 		}
 	}
 	return nil
+}
+
+// sameLine lists v and, when v is string(b) of a byte slice, b: two views of
+// the same line of text.
+func sameLine(v ssa.Value) []ssa.Value {
+	out := []ssa.Value{v}
+	if cv, ok := v.(*ssa.Convert); ok {
+		if sl, isSlice := cv.X.Type().Underlying().(*types.Slice); isSlice {
+			if b, isBasic := sl.Elem().Underlying().(*types.Basic); isBasic && b.Kind() == types.Byte {
+				out = append(out, cv.X)
+			}
+		}
+	}
+	return out
 }
